@@ -401,7 +401,13 @@ example : noteEquiv
     (`slowLines`: files the range changed up to k re-derived cumulatively, other tracked files
     carrying the head state — validated end to end, not proved of the Rust slow path) and
     needs `changed` to contain the file of every line born at k (a commit that introduces a
-    line changes that file) and distinct paths in a tree. -/
+    line changes that file) and distinct paths in a tree.  The reference model takes each
+    line's session from the commit's own tree; that is what the real slow path does exactly
+    when no later commit of the range rewrites or deletes an AI line of the range
+    (append-only ranges: model = both binaries' notes in every twin run).  Outside that
+    domain the real slow path projects the ORIGINAL HEAD's sessions onto earlier commits and
+    blame-equivalence is REFUTED on the binary (known finding
+    `slow-path-misattributes-lines-rewritten-later`; the shortcut's note is the correct one). -/
 theorem shortcut_blame_equiv_partial (head tk : GTree) (changed : List Str) (k : Nat)
     (hk : 1 ≤ k) (hnd : (tk.map (·.1)).Nodup)
     (hch : ∀ p j l, lineOf tk p j = some l → l.born = k → changed.contains p = true)
